@@ -319,6 +319,7 @@ type Contract struct {
 	Reason    string
 	Skip      map[string]bool // obligation kinds not generated (e.g. safety)
 	MaxPaths  int
+	CaseCalls []CaseCalls
 	Lemmas    []Clause
 	Covers    bool
 }
@@ -618,6 +619,13 @@ func (cs *ContractSet) parseContractFile(path, pkgPath string) error {
 				for _, k := range strings.Fields(rest) {
 					cur.Skip[k] = true
 				}
+			case "case_calls":
+				// case_calls <type expr>: f, g, h   -- inside that type-switch case only these may be called
+				i := strings.Index(rest, ":")
+				if i < 0 {
+					return fmt.Errorf("%s:%d: case_calls <type>: names", path, l.no)
+				}
+				cur.CaseCalls = append(cur.CaseCalls, CaseCalls{Type: strings.TrimSpace(rest[:i]), Allowed: fieldsComma(rest[i+1:]), Line: l.no})
 			case "maxpaths":
 				cur.MaxPaths, _ = strconv.Atoi(rest)
 			case "covers":
